@@ -412,8 +412,10 @@ class MacroProgram(ElementProgram):
             CASE = skip
         else:
             value = nodes.Value(clause)
-            for switch in reversed(self._switches):
-                if switch is not None:
+            # The case is matched against the switch of an enclosing
+            # element, never against one defined on the same element
+            for case_switch in reversed(self._switches[:-1]):
+                if case_switch is not None:
                     break
             else:
                 raise LanguageError(
@@ -426,14 +428,17 @@ class MacroProgram(ElementProgram):
                     nodes.Condition(
                         nodes.And([
                             nodes.BinOp(
-                                switch, nodes.IsNot, self._cancel_marker),
+                                case_switch, nodes.IsNot,
+                                self._cancel_marker),
                             nodes.Or([
-                                nodes.BinOp(value, nodes.Equals, switch),
+                                nodes.BinOp(
+                                    value, nodes.Equals, case_switch),
                                 nodes.BinOp(
                                     value, nodes.Equals, self.default_marker)
                             ])
                         ]),
-                        nodes.Cancel([switch], node, self._cancel_marker),
+                        nodes.Cancel(
+                            [case_switch], node, self._cancel_marker),
                     ))
 
         # tal:repeat
